@@ -44,6 +44,7 @@ type c14Report struct {
 	sentinelLines []string // rendered before the first goroutine ("" list = missing)
 	parentSent    uint64
 	gs            []c14Goroutine
+	odd           bool // some frame carries a symbol text the runtime does not print
 }
 
 // decoration holds everything that must not influence the counter name.
@@ -136,6 +137,11 @@ func c14Expected(r *c14Report) (pcs []uintptr, verdict string) {
 var c14Syms = []string{"main.main", "runtime.gopanic", "runtime.panicmem", "runtime.sigpanic", "golang.org/x/tools/gopls/internal/server.(*server).didOpen",
 	"example.com/pkg.T[...].Method", "example.com/pkg.(*T[...]).m", "main.(*app).run.func1", "main.run.func2.1", "runtime.main", "runtime.goexit", "a.b/c.F", "runtime.sigpanic"}
 
+// c14OddSyms are symbol texts the runtime does not print (no package, empty, starting with the argument
+// list, non-ASCII). Symbol text is not part of the result, so a report using them must give the model's
+// name or be refused with an error; which of the two is not settled by the statement.
+var c14OddSyms = []string{"(*T).method", "", "(...)", "x", "main.(", "\xe4\xb8\x96.F", "(", ".", "a.(b"}
+
 func c14RealPCs() []uint64 {
 	// PCs of real functions of this executable (so that symbolisation has something to chew on)
 	var out []uint64
@@ -175,6 +181,10 @@ func c14GenReport(t *rapid.T, real []uint64) *c14Report {
 		nf := rapid.OneOf(rapid.IntRange(0, 6), rapid.IntRange(0, 6), rapid.IntRange(14, 30)).Draw(t, "nframes")
 		for j := 0; j < nf; j++ {
 			f := c14Frame{sym: rapid.SampledFrom(c14Syms).Draw(t, "sym"), hasPC: true, relpc: rapid.IntRange(0, 4).Draw(t, "relpc") != 0}
+			if rapid.IntRange(0, 19).Draw(t, "oddSym") == 0 {
+				f.sym = rapid.SampledFrom(c14OddSyms).Draw(t, "oddSymText")
+				r.odd = true
+			}
 			switch rapid.IntRange(0, 9).Draw(t, "pcKind") {
 			case 0:
 				f.inline = true
@@ -299,6 +309,9 @@ func TestVerifC14Structured(t *testing.T) {
 				}
 			case "name":
 				want := counter.EncodeStack(pcs, "crash/crash")
+				if e != nil && r.odd {
+					return // refused because of an unusual symbol text: allowed
+				}
 				if e != nil {
 					t.Fatalf("well-formed report rejected: %v\ninput:\n%s", e, text)
 				}
@@ -321,15 +334,25 @@ func TestVerifC14Structured(t *testing.T) {
 			}
 		}
 		differ := text1 != text2
-		vstats.Case(text1, verdict == "name" && differ, "verdict:"+verdict, fmt.Sprintf("pcs:%d", min(len(pcs), 16)))
+		vstats.Case(text1, verdict == "name" && differ, "verdict:"+verdict, fmt.Sprintf("pcs:%d", min(len(pcs), 16)), fmt.Sprintf("oddSymbol:%v", r.odd))
 	})
 }
 
 // TestVerifC14Bytes: arbitrary and damaged text.
 func TestVerifC14Bytes(t *testing.T) {
 	defer vstats.Flush()
-	real := c14RealPCs()
-	rapid.Check(t, func(t *rapid.T) {
+	rapid.Check(t, c14BytesProp(c14RealPCs()))
+}
+
+// FuzzVerifC14Bytes runs the same property under Go's coverage-guided fuzzer
+// (thorough tier): the fuzzer's bytes are the source of rapid's draws.
+func FuzzVerifC14Bytes(f *testing.F) {
+	defer vstats.Flush()
+	f.Fuzz(rapid.MakeFuzz(c14BytesProp(c14RealPCs())))
+}
+
+func c14BytesProp(real []uint64) func(t *rapid.T) {
+	return func(t *rapid.T) {
 		var text string
 		if rapid.Bool().Draw(t, "damaged") {
 			text = c14Render(c14GenReport(t, real), c14GenDecor(t, "A"))
@@ -354,7 +377,7 @@ func TestVerifC14Bytes(t *testing.T) {
 		name, err := c14Name(t, text)
 		c14CheckShape(t, name, err, text)
 		vstats.Case(text, err == nil && strings.HasPrefix(name, "crash/crash\n"), fmt.Sprintf("err:%v", err != nil))
-	})
+	}
 }
 
 // ---------- real crashes ----------
